@@ -67,10 +67,10 @@ CLAIMED["C09"] = dict(
    engine="PqOptics, PqGaussian")
 CLAIMED["C10"] = dict(
    category="model_checking", design_ref="§3 C10",
-   text="PqOpticsGrad.tla is the exact tangent semantics of PqOptics: the derivative of the state with respect to one parameter (Beamsplitter theta / phi, Phaseshifter phi) of one gate of the program, by the Leibniz rule on the substitution a_c^dagger -> L_c with the derivative of the documented one-particle matrix (a lattice matrix with the same denominator); Kerr-type and parameter-free gates are differentiated through. TLC checks Re<psi|dpsi> = 0 on every behaviour (d=2,3, n<=3, depth 2-3) and exports state and tangent. The exact Jacobian of all Fock probabilities, 2 Re(conj(a_v) da_v), is compared at 1e-7 with tf.GradientTape (eager and inside tf.function), with jax.jacfwd / jax.jacrev (eager and under jax.jit) and, as the property's own oracle, with central finite differences of the NumPy simulation. The JAX permanent: value and holomorphic gradient against the definition (d perm / dA_ij = rows_i cols_j perm of the minor) for Gaussian-integer matrices with multiplicities.",
+   text="PqOpticsGrad.tla is the exact tangent semantics of PqOptics: the derivative of the state with respect to one parameter (Beamsplitter theta / phi, Phaseshifter phi) of one gate of the program, by the Leibniz rule on the substitution a_c^dagger -> L_c with the derivative of the documented one-particle matrix (a lattice matrix with the same denominator); Kerr-type and parameter-free gates are differentiated through. TLC checks Re<psi|dpsi> = 0 on every behaviour (d=2,3, n<=3, depth 2-3) and exports state and tangent. The exact Jacobian of all Fock probabilities, 2 Re(conj(a_v) da_v), is compared at 1e-7 with tf.GradientTape (eager and inside tf.function), with jax.jacfwd / jax.jacrev (eager and under jax.jit) and, as the property's own oracle, with central finite differences of the NumPy simulation. PqGaussianGrad.tla: exact tangent of (mean, covariance, mean photon numbers) of lattice Gaussian programs with respect to one parameter (Squeezing r/phi, Squeezing2 r/phi, Displacement r/phi, QuadraticPhase s, ControlledX/Z s, Beamsplitter, Phaseshifter), TLC-checked (derivative of the commutation relations vanishes, tangent Hermitian), against jax.jacfwd / jacrev through GaussianSimulator (1e-8) and finite differences of NumPy. The JAX permanent: value and holomorphic gradient against the definition (d perm / dA_ij = rows_i cols_j perm of the minor) for Gaussian-integer matrices with multiplicities.",
    note="Active gates in Fock space (hand-written displacement / squeezing rules, gate-application rule; d = 2, 3) have no exact lattice tangent: for TLC-generated PqGaussian programs on number-state inputs the oracle is the property's own, central finite differences of the NumPy simulation (2e-6). A derivative that cannot be obtained at all (tf.function cannot trace the gate, JAX has no rule for schur) is counted, not judged. Batched states are not covered.",
    technique="exact tangent semantics in TLA+ (TLC-checked, exported) compared with TensorFlow / JAX automatic derivatives, eager and compiled",
-   engine="PqOpticsGrad")
+   engine="PqOpticsGrad, PqGaussianGrad")
 CLAIMED["C15"] = dict(
    category="exploration", design_ref="§3 C15",
    text="The specification decides the input side and the exact structural facts, not floating-point factorisations: PqDecomp.tla (on PqGaussian) carries the accumulated ladder matrix Stot of lattice programs; TLC proves on every reachable state (d=1,2,3, depth 2-3, every ordered mode tuple) that Stot is symplectic, that Stot Vac Stot^dagger is the state, that the anomalous block <a_i a_j> is symmetric, that passive programs have a unitary passive block and that unitary programs give pure states. Each reachable state is an exact, structured and usually degenerate input (equal squeezings, permutation / block-diagonal / identity / one-mode unitaries, pure covariances with symplectic spectrum hbar of full multiplicity, thermal ones); the implementation's clements / inverse_clements / instruction list / weight round trip, takagi, williamson, euler and graph embedding are run on them and the defining relations are evaluated on their outputs at 1e-7 (plus permutation, diagonal and block-diagonal unitaries up to d=5, their symmetrisations as Takagi inputs with repeated and zero singular values, and every graph on <= 4 vertices).",
